@@ -848,8 +848,14 @@ def _where(draw, og):
         # a polynomial as condition: an element is true unless it is the zero polynomial
         # (also when its coefficients happen to sum to zero, like q0-1)
         cpoly = og.array(draw, shape=cshape)
-        if "terms" in cpoly and len(cpoly["terms"]) >= 2 and draw(st.booleans()):
-            cpoly["terms"][1][1] = [-v for v in cpoly["terms"][0][1]]
+        if "terms" in cpoly and draw(st.booleans()):
+            # elements c*(q - 1): non-zero polynomials whose coefficients cancel in a sum
+            D = len(cpoly["names"])
+            v = draw(st.lists(st.sampled_from([0, 1, 2, -3]), min_size=size, max_size=size))
+            if cpoly.get("kind") == "c":
+                v = [[x, 0] for x in v]
+            neg = [[-x[0], 0] for x in v] if cpoly.get("kind") == "c" else [-x for x in v]
+            cpoly["terms"] = [[[1] + [0] * (D - 1), v], [[0] * D, neg]]
         cond = P(cpoly)
     a = og.array(draw, shape=target if draw(st.booleans()) else gen.broadcast_member(draw, target))
     b = og.related(draw, a, gen.broadcast_member(draw, target))
